@@ -101,6 +101,7 @@ func init() {
 			if !ok {
 				// whole-store scan: raw key bytes via keybytes()
 				x.e.declareFun("keybytes", "(Key) String")
+				x.e.keybytesAxioms(it.Data["name"].(T).S)
 				return app(SString, "keybytes", k)
 			}
 			fam := familyByName[famN.(T).S]
